@@ -19,7 +19,7 @@ Failure of any step is a broken tie: res.violation("translated source no longer 
 added to res.corr_obligations and the counts go to res.cov["translation_tie"].
 
 `functions`: None = every group of Equiv.v; otherwise an iterable of group names ("can",
-"descriptor", "wire", "physical", "apidecide", "netlink", "scan", "dbcid", "dbcvalidate") and/or translated function names
+"descriptor", "wire", "physical", "apidecide", "netlink", "scan", "dbcid", "dbcvalidate", "lookup") and/or translated function names
 ("Data_Bit", "Signal_MaxUnsigned", ...):
 the groups containing them, plus the groups those require, are checked (a group is the unit because
 the generated records contain exactly the struct fields the translated functions use).
@@ -58,6 +58,10 @@ TIE_NOTE_WIRE = (" Translated here: Frame.Validate and all of pkg/socketcan/fram
                  "translation models); marshalBinary returns the final contents of the []byte parameter it writes through, "
                  "assumed not to overlap the receiver; binary.LittleEndian.Uint32/PutUint32 are read as little-endian "
                  "accessors of the first four bytes (Translate/GoSem.v).")
+TIE_NOTE_LOOP = (" Loops of the form `for i, x := range l` / `for i := 0; i < len(l); i++` whose body assigns locals, continues or "
+                 "returns are translated to the fold go_range of Translate/GoSem.v (state = the assigned locals, early exit = "
+                 "LoopReturn); a []*S is read as the list of the element values (elements assumed non-nil, pointer identity not "
+                 "represented), a returned *S as option S.")
 
 
 def describe(properties, pid, functions, *notes):
